@@ -6,7 +6,7 @@ NOT_APPLICABLE = {}
 _T = "trusts z3, CPython and the sx proxies (differentially self-tested against CPython at the start of every run); "
 CLAIMS = {
     "C01": {
-        "text": "Bounded: K01b proves for every token text of <=2 (3) characters over U+0000..U+00FF and all nine case options that the real token_case/case_utils fix is a pure case map (same length, same lower-cased text). L01 runs the whole product (tokenizer, classifier, all shipped rules, rule_list.fix) on corpus fixtures whose letter case in a window is symbolic and, in layout-variation explorations, whose whitespace gaps/line ends in a window take engine-forked alternatives; after every single rule application it checks that code tokens are the same objects in the same order with the same text (case rules: modulo case, literals exact; structure rules: only documented kinds of insertions/removals).",
+        "text": "Bounded: K01b proves for every token text of <=2 (3) characters over U+0000..U+00FF and all nine case options that the real token_case/case_utils fix is a pure case map (same length, same lower-cased text; a token starting with a quote is never touched, also with prefix/suffix exceptions); K01c proves the consistent-case rules rewrite a use only to a spelling that differs in case alone (two symbolic names). L01 runs the whole product (tokenizer, classifier, all shipped rules, rule_list.fix) on corpus fixtures whose letter case in a window is symbolic and, in layout-variation explorations, whose whitespace gaps/line ends in a window take engine-forked alternatives; after every single rule application it checks that code tokens are the same objects in the same order with the same text (case rules: modulo case, literals exact; structure rules: only documented kinds of insertions/removals).",
         "design_ref": "DESIGN.md section 4 C01, section 3",
         "note": _T + "token structure is that of the 957 corpus fixtures and their layout neighbourhoods; the phase-1 allow-list is calibrated against the current tree",
     },
@@ -26,7 +26,7 @@ CLAIMS = {
         "note": _T + "lines contain no CR/LF; file system is a model",
     },
     "C05": {
-        "text": "Bounded: L05 makes every letter of a whole corpus file case-symbolic: the complete tokenizer+classifier runs on a single path and the role of every token equals the concrete baseline (all 2^letters case variants at once). L05b forks over layout alternatives (line break, comment + line break, extra blanks/tab; trailing and own-line comments) at up to 5 whitespace gaps of a window and proves acceptance and identical code-token roles.",
+        "text": "Bounded: K05a proves that the post-classification passes give every expression token (every sequence of <=3 (4) words of a 13-word vocabulary) the same role with a blank, a line break or a comment of any of 5 kinds in a gap. L05 makes every letter of a whole corpus file case-symbolic: the complete tokenizer+classifier runs on a single path and the role of every token equals the concrete baseline (all 2^letters case variants at once). L05b forks over layout alternatives (line break, comment + line break, extra blanks/tab; trailing and own-line comments) at up to 5 whitespace gaps of a window and proves acceptance and identical code-token roles.",
         "design_ref": "DESIGN.md section 4 C05",
         "note": _T + "re-layout beyond 5 gaps at a time and removal of existing line breaks are outside",
     },
@@ -56,7 +56,7 @@ CLAIMS = {
         "note": _T + "corpus bound as C01",
     },
     "C11": {
-        "text": "Bounded: K11a drives the real set_code_tags/code_tags/has_code_tag/add_violation state machine over every sequence of <=4 (5) lines from {code, vsg_off, vsg_on, vsg_disable_next_line, comment, blank} with symbolic rule ids and compares, by z3, with a reference interpreter of docs/code_tags.rst; K11b does the same for the tag text (every tail of <=3 (4) characters over a 7-symbol alphabet).",
+        "text": "Bounded: K11a drives the real set_code_tags/code_tags/has_code_tag/add_violation state machine over every sequence of <=4 (5) lines from {code, vsg_off, vsg_on, vsg_disable_next_line, comment, blank} with symbolic rule ids and compares, by z3, with a reference interpreter of docs/code_tags.rst; K11b does the same for the tag text (every tail of <=3 (4) characters over a 7-symbol alphabet). L11 inserts bare / rule-specific off-on pairs and next-line tags around corpus lines that have a fixable violation and runs the whole fix pipeline: no rule may change, or afterwards report on, a token that carried its tag when the file was read.",
         "design_ref": "DESIGN.md section 4, C11 (K11a, K11b)",
         "note": _T + "token list built directly from parser.* objects; an id-carrying vsg_on under an active bare vsg_off is unspecified by the documentation and skipped",
     },
@@ -76,22 +76,22 @@ CLAIMS = {
         "note": _T + "solution text fixed; single-digit line numbers; md5 fingerprint stubbed; file writing captured in memory",
     },
     "C16": {
-        "text": "Bounded fault/crash enumeration decided symbolically: K16 runs the real apply_rules/write_vhdl_file/create_backup_file over a model file system with a symbolic fault position and kind and a symbolic crash point; z3 proves at every crash point and after every single fault that the target holds the complete original or complete fixed text with its original mode, that the temp file is gone after non-fatal failures, that the backup is faithful and that rejected files are untouched.",
+        "text": "Bounded fault/crash enumeration decided symbolically: K16 runs the real apply_rules/write_vhdl_file/create_backup_file over a model file system with a symbolic fault position and kind and a symbolic crash point; z3 proves at every crash point and after every single fault that the target holds the complete original or complete fixed text with its original mode, that the temp file is gone after non-fatal failures, that the backup is faithful and that rejected files are untouched (thorough: two faults per run). K04f reads real UTF-8 / ISO-8859-1 files through read_vhdlfile with the non-ASCII byte at engine-forked offsets around the buffer boundary: every line exactly once.",
         "design_ref": "DESIGN.md section 4, C16 (K16)",
         "note": _T + "os.replace atomic; a failing call affects only its own file; umask arbitrary; single fault per run",
     },
     "C20": {
-        "text": "Bounded: K20a proves for one rule with 0..2 (3) violations on symbolic lines and every shape of the selection document that rule.fix repairs exactly the listed lines (all for 'all'), in file order; K20b proves all-rules-all == plain fix, empty selection fixes nothing, and a one-rule selection leaves the other rule untouched.",
+        "text": "Bounded: K20a proves for one rule with 0..2 (3) violations on symbolic lines and every shape of the selection document that rule.fix repairs exactly the listed lines (all for 'all'), in file order; K20b proves all-rules-all == plain fix, empty selection fixes nothing, and a one-rule selection leaves the other rule untouched; L15b checks on corpus file pairs that a selection applies to every file of a run.",
         "design_ref": "DESIGN.md section 4, C20 (K20a, K20b)",
         "note": _T + "stub rules; the line-locality of real rule fixes (L20) not covered",
     },
     "C15": {
-        "text": "Bounded: K14b runs the real __main__.main aggregation (jobs 1 and 2 through Pool.imap's contract) over 1-3 files with symbolic per-file outcomes and proves order of output and JSON entries; L15 is a purity step: processing a file (parse, fix, check, report) leaves every module-level and class-level mutable container of vsg.* unchanged, so the result for a file cannot depend on what a worker processed before.",
+        "text": "Bounded: K14b runs the real __main__.main aggregation (jobs 1 and 2 through Pool.imap's contract) over 1-3 files with symbolic per-file outcomes and proves order of output and JSON entries; L15 is a purity step: processing a file (parse, fix, check, report) leaves every module-level and class-level mutable container of vsg.* unchanged, so the result for a file cannot depend on what a worker processed before. L15b runs two corpus files through the real config.New + apply_rules with one shared configuration object (the --jobs 1 path) under engine-forked --fix / --all_phases / --fix_only and compares the second file's report, JSON entry, exit contribution and fixed text with processing it alone; K12e proves config.New leaves nothing behind for the next call.",
         "design_ref": "DESIGN.md section 4 C15",
         "note": _T + "OS scheduling, pickling and real process pools are outside; imap = lazy, in submission order",
     },
     "C17": {
-        "text": "Bounded: K17 sets, for each non-deprecated rule (80 per quick run, all in thorough), every configurable attribute to a symbolic value of its type (yes/no options also as YAML booleans), emits the configuration, configures a fresh rule from it and proves the second emission identical and the effective values equal; K17b does the whole rule list under styles none/jcl/indent_only.",
+        "text": "Bounded: K17 sets, for each non-deprecated rule (80 per quick run, all in thorough), every configurable attribute to a symbolic value of its type (yes/no options also as YAML booleans), emits the configuration, configures a fresh rule from it and proves the second emission identical and the effective values equal; K17b does the whole rule list under styles none/jcl/indent_only; K17c pushes strings over a 14-symbol alphabet of serialiser-special characters through the real json.dump of --output_configuration and the real yaml reader.",
         "design_ref": "DESIGN.md section 4 C17",
         "note": _T + "JSON/YAML replaced by a structural copy with JSON's coercions; behaviour on VHDL input under the emitted configuration (L17) not covered",
     },
